@@ -29,7 +29,9 @@ type AggV struct {
 type Ptr struct {
 	C *AggV
 	I int
-	// Fn is set for pointers that wrap something opaque (unused)
+	// symbolic element pointer into a scalar array/slice: element I+Sym, Sym in [0,N)
+	Sym *Term
+	N   int
 }
 
 func (p Ptr) IsNil() bool { return p.C == nil }
